@@ -36,6 +36,7 @@ package lazy
 
 import (
 	"errors"
+	"sync"
 
 	"github.com/coregx/coregex/nfa"
 	"github.com/coregx/coregex/prefilter"
@@ -65,6 +66,11 @@ type DFA struct {
 	config    Config
 	prefilter prefilter.Prefilter
 	pikevm    *nfa.PikeVM // NFA fallback — may be shared with Engine (Issue #158)
+
+	// revFallbackVM is the longest-mode PikeVM of nfaFallbackReverse (reverse
+	// DFAs only), created on first use.
+	revFallbackOnce sync.Once
+	revFallbackVM   *nfa.PikeVM
 
 	// byteClasses maps bytes to equivalence classes for alphabet reduction.
 	// Bytes in the same class have identical transitions in all DFA states.
@@ -2234,9 +2240,15 @@ func (d *DFA) nfaFallbackReverse(haystack []byte, start, end int) int {
 	for i := range rev {
 		rev[i] = haystack[end-1-i]
 	}
-	vm := nfa.NewPikeVM(d.nfa)
-	vm.SetLongest(true)
-	revStart, revEnd, matched := vm.SearchAt(rev, 0)
+	// One longest-mode PikeVM per DFA, created on first use (its search
+	// methods are serialized internally): with a tiny cache this path runs on
+	// every search, and a PikeVM for a large UTF-8 automaton costs megabytes.
+	d.revFallbackOnce.Do(func() {
+		vm := nfa.NewPikeVM(d.nfa)
+		vm.SetLongest(true)
+		d.revFallbackVM = vm
+	})
+	revStart, revEnd, matched := d.revFallbackVM.SearchAt(rev, 0)
 	if !matched || revStart != 0 {
 		return -1
 	}
